@@ -342,7 +342,7 @@ ORank(o) ==
     [] IsMethod(o)    -> <<o.ow, o.sl, B(o.ex)>>
     [] o.k = "embed"  -> <<o.ow, o.ty, 0>>
     [] o.k = "tparam" -> <<o.ow, 0, 0>>
-    [] OTHER          -> <<B(o.ex), o.ty, o.sl>>
+    [] OTHER          -> <<1 - B(o.ex), o.ty, o.sl>>   \* exported first: an exported root may be followed by anything
 
 Rec(k, ex, ow, sl, ty) == [k |-> k, ex |-> ex, ow |-> ow, sl |-> sl, ty |-> ty]
 
